@@ -59,6 +59,11 @@ def run(ctx):
                             MaxSteps=ctx.pick(5, 7), CommitChoices=ALL)
     _vlog.export_and_replay(ctx, "two", ["--thr", "1", "--filecap", "1", "--plan", str(ctx.seed + 1)], TwoPhase="TRUE",
                             CommitChoices=BIG, MaxCommits=2, MaxSteps=ctx.pick(7, 8), MaxCompactions=ctx.pick(1, 2))
+    # flushes (with their clean-up) while a compaction sits between writing its output and installing it - deep enough for
+    # "flush, compaction written, another flush in a newer file, compaction installed"
+    _vlog.export_and_replay(ctx, "cpflush", ["--thr", "1", "--filecap", "1", "--plan", str(ctx.seed + 3)], TwoPhase="TRUE",
+                            CommitChoices='{"SetB"}', Readers="{}", CursorKinds="{}", MaxCommits=3, MaxFlushes=3,
+                            MaxCompactions=2, MaxSteps=ctx.pick(12, 14))
     _vlog.export_and_replay(ctx, "cap2", ["--thr", "300", "--filecap", "2", "--plan", str(ctx.seed), "--full-checksum"],
                             FileCap=2, CommitChoices=BIG, MaxSteps=ctx.pick(5, 7))
     # versions expiring under pinned range / history cursors (clean-up waits for open cursors since 56ef569)
